@@ -96,23 +96,25 @@ func genChunks(r *core.RNG) []int {
 
 // the user's files every history can draw from
 var stockFiles = map[string]fileSpec{
-	"/u/phix.gb":     {Parts: []string{"NC_001422.gb"}},
-	"/u/part.gb":     {Parts: []string{"NC_001422_part.gb"}},
-	"/u/pbat.gb":     {Parts: []string{"pBAT5.txt"}},
-	"/u/ecoli.gb":    {Parts: []string{"NC_000913.3.min.gb"}},
-	"/u/phix.fasta":  {Parts: []string{"NC_001422.fasta"}},
-	"/u/part.fasta":  {Parts: []string{"NC_001422_part.fasta"}},
-	"/u/two.gb":      {Parts: []string{"NC_001422_part.gb", "pBAT5.txt"}},
-	"/u/three.gb":    {Parts: []string{"pBAT5.txt", "NC_001422_part.gb", "NC_001422_part.gb"}},
-	"/u/bad2.gb":     {Parts: []string{"NC_001422_part.gb", "NC_001422_part.gb"}, Edits: []editSpec{{Op: "truncate", Len: 6245 + 3000}}},
-	"/u/badmid.gb":   {Parts: []string{"pBAT5.txt", "NC_001422_part.gb"}, Edits: []editSpec{{Op: "replace", At: 7448, Old: "FEATURES", Text: "FEATURE$"}}},
-	"/u/garbage.gb":  {Parts: []string{"NC_001422_part.gb"}, Text: "this is not a record\n"},
-	"/u/two.fasta":   {Parts: []string{"NC_001422_part.fasta"}, Text: ">second record\nACGTACGTAAACCCGGGTTT\nACGT\n"},
-	"/u/empty.gb":    {Text: ""},
-	"/u/pad4096.gb":  {Parts: []string{"pBAT5.txt"}, Edits: []editSpec{{Op: "pad-to", Len: 8192}}},
-	"/u/pad32k.gb":   {Parts: []string{"NC_001422.gb"}, Edits: []editSpec{{Op: "pad-to", Len: 32768}}},
-	"/u/pad64k.gb":   {Parts: []string{"NC_001422.gb", "NC_001422.gb"}, Edits: []editSpec{{Op: "pad-to", Len: 65536}}},
-	"/u/pad64k1.gb":  {Parts: []string{"NC_001422.gb", "NC_001422.gb"}, Edits: []editSpec{{Op: "pad-to", Len: 65537}}},
+	"/u/phix.gb":    {Parts: []string{"NC_001422.gb"}},
+	"/u/part.gb":    {Parts: []string{"NC_001422_part.gb"}},
+	"/u/pbat.gb":    {Parts: []string{"pBAT5.txt"}},
+	"/u/ecoli.gb":   {Parts: []string{"NC_000913.3.min.gb"}},
+	"/u/phix.fasta": {Parts: []string{"NC_001422.fasta"}},
+	"/u/part.fasta": {Parts: []string{"NC_001422_part.fasta"}},
+	"/u/two.gb":     {Parts: []string{"NC_001422_part.gb", "pBAT5.txt"}},
+	"/u/three.gb":   {Parts: []string{"pBAT5.txt", "NC_001422_part.gb", "NC_001422_part.gb"}},
+	"/u/bad2.gb":    {Parts: []string{"NC_001422_part.gb", "NC_001422_part.gb"}, Edits: []editSpec{{Op: "truncate", Len: 6245 + 3000}}},
+	"/u/badmid.gb":  {Parts: []string{"pBAT5.txt", "NC_001422_part.gb"}, Edits: []editSpec{{Op: "replace", At: 7448, Old: "FEATURES", Text: "FEATURE$"}}},
+	"/u/garbage.gb": {Parts: []string{"NC_001422_part.gb"}, Text: "this is not a record\n"},
+	"/u/two.fasta":  {Parts: []string{"NC_001422_part.fasta"}, Text: ">second record\nACGTACGTAAACCCGGGTTT\nACGT\n"},
+	"/u/empty.gb":   {Text: ""},
+	"/u/pad4096.gb": {Parts: []string{"pBAT5.txt"}, Edits: []editSpec{{Op: "pad-to", Len: 8192}}},
+	"/u/pad32k.gb":  {Parts: []string{"NC_001422.gb"}, Edits: []editSpec{{Op: "pad-to", Len: 32768}}},
+	"/u/pad64k.gb":  {Parts: []string{"NC_001422.gb", "NC_001422.gb"}, Edits: []editSpec{{Op: "pad-to", Len: 65536}}},
+	"/u/pad64k1.gb": {Parts: []string{"NC_001422.gb", "NC_001422.gb"}, Edits: []editSpec{{Op: "pad-to", Len: 65537}}},
+	"/u/multi.gb": {Parts: []string{"NC_001422_part.gb"}, Edits: []editSpec{{Op: "replace", Old: "                     /codon_start=1\n",
+		Text: "                     /codon_start=1\n                     /note=\"first note\"\n                     /note=\"second note\"\n                     /db_xref=\"A:1\"\n                     /db_xref=\"B:2\"\n"}}},
 	"/u/pre.gb":      {Prefix: preamble, Parts: []string{"NC_001422_part.gb"}},
 	"/u/pre.fasta":   {Prefix: preamble, Parts: []string{"NC_001422_part.fasta"}, Text: ">second\nACGTTGCA\n"},
 	"/u/big.gb":      {Parts: []string{"NC_001422.gb", "NC_001422.gb", "NC_001422.gb"}},
@@ -131,7 +133,7 @@ var stockFiles = map[string]fileSpec{
 var primaryInputs = []string{"/u/part.gb", "/u/part.gb", "/u/pbat.gb", "/u/pbat.gb", "/u/ecoli.gb", "/u/two.gb", "/u/three.gb", "/u/phix.gb",
 	"/u/part.fasta", "/u/two.fasta", "/u/phix.fasta", "/u/bad2.gb", "/u/badmid.gb", "/u/garbage.gb", "/u/empty.gb",
 	"/u/part.gb", "/u/pbat.gb", "/u/two.gb", "/u/part.fasta", "/u/two.fasta", "/u/ecoli.gb", "/u/big.gb", "/u/big.fasta",
-	"/u/pad4096.gb", "/u/pad32k.gb", "/u/pad64k.gb", "/u/pad64k1.gb"}
+	"/u/pad4096.gb", "/u/pad32k.gb", "/u/pad64k.gb", "/u/pad64k1.gb", "/u/multi.gb", "/u/multi.gb"}
 
 var locators = []string{"^..$", "1..10", "3", "CDS", "gene", "@^-10..^", "$-20..$", "10..1", "source", "^", "$", "CDS@^..$", "gene/gene=A",
 	"100", "1..100", "@^..^+30", "20..40@^-5..$+5", "misc_feature", "^+5..$-5", "((("}
@@ -156,7 +158,7 @@ var posPools = map[string][][]string{
 var sepPool = []string{";", "|", "/", "ab", ",", ",;", "a", ";|"}
 var delimPool = []string{",", ";", "|", "  ", ",;"}
 var optPools = map[string]map[string][]string{
-	"query":  {"-d": delimPool, "-t": sepPool, "-n": {"gene", "product", "note", "locus_tag", "translation"}},
+	"query":  {"-d": delimPool, "-t": sepPool, "-n": {"gene", "product", "note", "locus_tag", "translation", "db_xref"}},
 	"search": {"-k": keys, "-q": quals},
 	"select": {"-s": {"both", "forward", "reverse", "sideways"}},
 	"define": {"-q": quals},
@@ -219,7 +221,7 @@ var cmdGens = map[string]cmdGen{
 			o := []string{"-n"}
 			n := r.Range(1, 2)
 			for i := 0; i < n; i++ {
-				o = append(o, pickS(r, []string{"gene", "product", "note", "locus_tag", "translation"}))
+				o = append(o, pickS(r, []string{"gene", "product", "note", "locus_tag", "translation", "db_xref", "note"}))
 			}
 			iv.Opts = append(iv.Opts, o)
 		}
@@ -460,7 +462,117 @@ func sortStrings(s []string) {
 	}
 }
 
-var goodInputs = []string{"/u/part.gb", "/u/pbat.gb", "/u/two.gb", "/u/three.gb", "/u/ecoli.gb", "/u/phix.gb", "/u/part.fasta", "/u/two.fasta", "/u/part.gb", "/u/pbat.gb"}
+var goodInputs = []string{"/u/multi.gb", "/u/multi.gb", "/u/part.gb", "/u/pbat.gb", "/u/two.gb", "/u/three.gb", "/u/ecoli.gb", "/u/phix.gb", "/u/part.fasta", "/u/two.fasta", "/u/part.gb", "/u/pbat.gb"}
+
+type optTarget struct {
+	cmd, kind, flag string
+}
+
+var optTargets []optTarget
+
+func buildOptTargets() {
+	if optTargets != nil {
+		return
+	}
+	for _, c := range cachedCommands {
+		for _, f := range switchPools[c] {
+			optTargets = append(optTargets, optTarget{c, "switch", f})
+		}
+		var flags []string
+		for f := range optPools[c] {
+			flags = append(flags, f)
+		}
+		sortStrings(flags)
+		for _, f := range flags {
+			optTargets = append(optTargets, optTarget{c, "value", f}, optTarget{c, "present", f})
+		}
+	}
+}
+
+// inputsFor prefers inputs on which an option can make a difference.
+func inputsFor(cmd string) []string {
+	switch cmd {
+	case "query", "summary", "select", "search":
+		return []string{"/u/multi.gb", "/u/multi.gb", "/u/phix.gb", "/u/two.gb", "/u/part.gb"}
+	case "sort", "join", "pick":
+		return []string{"/u/three.gb", "/u/two.gb", "/u/three.gb", "/u/two.fasta"}
+	}
+	return goodInputs
+}
+
+// genOptionPair builds [A, A'] (sometimes [A, A', A]) where A' differs from A
+// in exactly the targeted option.
+func genOptionPair(r *core.RNG, sc *cliScenario) *cliScenario {
+	buildOptTargets()
+	if len(optTargets) == 0 {
+		return nil
+	}
+	t := optTargets[r.Intn(len(optTargets))]
+	a := genInvocation(r, t.cmd)
+	a.Input = pickS(r, inputsFor(t.cmd))
+	a.Redirect = false
+	if t.cmd == "query" && r.Chance(1, 2) {
+		// report qualifiers that occur more than once, so that the separator shows
+		has := false
+		for _, o := range a.Opts {
+			if o[0] == "-n" {
+				has = true
+			}
+		}
+		if !has {
+			a.Opts = append(a.Opts, []string{"-n", pickS(r, []string{"note", "db_xref"})})
+		}
+	}
+	b := a.clone()
+	find := func(iv *invocation) int {
+		for i, o := range iv.Opts {
+			if o[0] == t.flag {
+				return i
+			}
+		}
+		return -1
+	}
+	switch t.kind {
+	case "switch":
+		if i := find(&b); i >= 0 {
+			b.Opts = append(b.Opts[:i], b.Opts[i+1:]...)
+		} else {
+			b.Opts = append(b.Opts, []string{t.flag})
+		}
+	case "present":
+		if i := find(&b); i >= 0 {
+			b.Opts = append(b.Opts[:i], b.Opts[i+1:]...)
+		} else {
+			b.Opts = append(b.Opts, []string{t.flag, neighbourOf(r, optPools[t.cmd][t.flag], optDefaults[t.flag])})
+		}
+	case "value":
+		pool := optPools[t.cmd][t.flag]
+		if i := find(&a); i < 0 {
+			a.Opts = append(a.Opts, []string{t.flag, pickS(r, pool)})
+			b = a.clone()
+		}
+		i := find(&b)
+		for try := 0; try < 10; try++ {
+			nv := pickS(r, pool)
+			if nv != b.Opts[i][1] {
+				b.Opts[i][1] = nv
+				break
+			}
+		}
+	}
+	if r.Chance(1, 2) {
+		a, b = b, a
+	}
+	for _, st := range []*runStep{a.step(r), b.step(r)} {
+		addFiles(sc, st)
+		sc.Steps = append(sc.Steps, cliStep{Run: st})
+	}
+	if r.Chance(1, 3) {
+		st := a.step(r)
+		sc.Steps = append(sc.Steps, cliStep{Run: st})
+	}
+	return sc
+}
 
 // mutate returns a variant of the anchor that differs in exactly one aspect.
 func mutateInvocation(r *core.RNG, a invocation) (invocation, string) {
@@ -648,6 +760,14 @@ func genHistory(r *core.RNG, tier string) *cliScenario {
 		addFiles(sc, st)
 		sc.Steps = append(sc.Steps, cliStep{Run: st}, cliStep{Edit: &editStep{File: in, Edit: editSpec{Op: "mutate-tail", At: r.Intn(300)}}}, cliStep{Run: st})
 		return sc
+	}
+	if r.Chance(1, 4) {
+		// option coverage: one (subcommand, option) pair drawn uniformly from all
+		// of them - so that a command with ten options gets ten times the turns
+		// of a command with one - and a history that differs in exactly that option
+		if h := genOptionPair(r, sc); h != nil {
+			return h
+		}
 	}
 	if r.Chance(9, 20) {
 		// pair shape: a run that succeeds, then the same run with exactly one argument changed
